@@ -23,16 +23,15 @@ THEOREMS = [
     _Y + "record_valid",
     _Y + "extract_video_id_valid",
     _Y + "record_fields",
-    _Y + "good_of_residual",
-    _Y + "reparse_url_partial",
-    _Y + "reparse_short",
-    _Y + "reparse_video_without_playlist",
-    _Y + "fullReparse_false",
+    _Y + "record_names_no_continuation",
+    _Y + "reparse_url",
+    _Y + "reparse_url_module",
     _Y + "normalize_unparsed_fixed",
-    _Y + "normalize_youtube_idempotent_partial",
-    _Y + "fullIdempotent_false",
+    _Y + "normalize_youtube_idempotent",
+    _Y + "normalize_youtube_idempotent_module",
     _Y + "parse_eq_fuel",
     "Ural.Youtube.reparse_of_good",
+    "Ural.Youtube.good_of_fields",
     # ural/google.py
     _G + "parse_google_drive_url_total",
     _G + "extract_id_from_google_drive_url_total",
@@ -44,6 +43,7 @@ THEOREMS = [
 ]
 TABLE_OBLIGATIONS = [
     _Y + "youtube_patterns_unchanged",
+    _Y + "youtube_stops_are_pattern_classes",
     _Y + "youtube_templates_unchanged",
     _Y + "roundtrip_obligations",
     _Y + "youtube_domains_ordinary",
@@ -117,6 +117,9 @@ YT_SEGS = [
     "watch", "embed", "v", "video", "shorts", "channel", "user", "c", "playlist", "feed", "results", "about", "t",
     ID, ID + "x", "short", CID, "@handle", "handle", "@", "@@h", "@watch", "", " ", "x ", "a&b", "a%20b", "é日", "&x", "x&u=%2Fy", "ne\txt=%2Fwatch%3Fv%3D" + ID2,
 ]
+# the core of the vocabulary (route words, id-like, too long, too short, channel-id-like, handle-like, empty, trailing blank): the
+# quick tier enumerates 3-segment paths and the host x scheme grid over it; paths of 0-2 segments always range over all of YT_SEGS
+YT_CORE = YT_SEGS[:13] + [ID, ID + "x", "short", CID, "@handle", "handle", "@", "", "x "]
 YT_HOSTS = [
     "youtube.com", "www.youtube.com", "m.youtube.com", "youtube.fr", "youtube.co.uk", "music.youtube.com", "youtu.be", "www.youtu.be",
     "yt.be", "youtubekids.com", "notyoutube.com", "youtube.com.evil.org", "a.com", "YouTube.COM",
@@ -158,12 +161,15 @@ CORPUS_YT = [
     "youtube.com/user/x /", "youtube.com/channel/x /", "youtube.com/user/ /", "youtube.com/channel/ /", "youtube.com/user/x\x1f/y",  # FX-C19-d47b8e8 trailing blank
     "https://www.youtube.com/watch?v=" + ID + "&q=zzz&list=a?u=http://x.com/", "youtu.be/" + ID + "?u=abc&list=PL?url=http://x.com/",  # FX-C19-569f4b6
     "q=1@youtube.com/user/a&u=%2Fx", "q=1@youtube.com/channel/a&u=%2Fx", "q=1@youtube.com/c/a&u=%2Fx", "q=1@youtube.com/a&u=%2Fx",  # FX-C19-716cf1e
-    # witnesses of the known finding KF-C19-YT-4 (TAB / CR / LF inside a continuation pattern held by a name)
+    # FX-C19-YT4 (formerly known finding KF-C19-YT-4): TAB / CR / LF inside a continuation pattern held by a name
     "youtube.com/user/ne\txt=%2Fwatch%3Fv%3D" + ID, "youtube.com/ne\rxt%3D%252Fwatch%253Fv%253D" + ID, "youtube.com/channel/ne\nxt=%2Fwatch%3Fv%3Dshort",
     "youtube.com/c/next=%2\tFwatch%3Fv%3D" + ID2, "https://www.google.com/url?q=https%3A%2F%2Fyoutube.com%2Fne%09xt%3D%252Fwatch%253Fv%253D" + ID2, "youtube.com/watch?v=" + ID + "&list=a\tb", "youtube.com/user/x\ty",
-    # witnesses of the known finding KF-C19-YT-5 (a continuation pattern inside the playlist id competes with another one)
+    # FX-C19-YT5 (formerly known finding KF-C19-YT-5): a continuation pattern inside the playlist id competes with another one
     "youtube.com/next=%2Fwatch%3Fv%3DAAAAAAAAAAA?list=next=%2Fwatch%3Fv%3DBBBBBBBBBBB", "youtube.com/watch?v=AAAAAAAAAAA&x=next%3D%252Fwatch%253Fv%253D" + ID + "&list=next=%2Fwatch%3Fv%3D" + ID2,
     "youtu.be/AAAAAAAAAAA?list=next=%2Fwatch%3Fv%3DBBBBBBBBBBB", "youtube.com/watch?v=AAAAAAAAAAA&list=PL%20x", "youtube.com/watch?v=AAAAAAAAAAA&list=a/b/.ampproject.org/c/",
+    # a cache host of infer_redirection hidden behind a TAB / %09 inside the playlist id (why a playlist id stops at '/')
+    "youtube.com/watch?v=" + ID + "&list=bc.marfeel.co\tm/x", "http://a.com/?url=http://youtube.com/watch?v=" + ID + "%26list=bc.marfeel.co%09m/x",
+    "youtu.be/" + ID + "?list=cdn.ampproject.or\ng/c/s/x.com", "youtube.com/watch?v=" + ID + "&list=PL1/", "youtube.com/watch?v=" + ID + "&list=/",
     "youtube.com/user/x&feature=share", "youtube.com/@x&t=1", "youtube.com/user/&x", "youtube.com/watch&v=" + ID, "youtube.com/c/@&@x",
 ]
 G_SEGS = ["document", "spreadsheets", "presentation", "forms", "d", "e", "pub", "edit", "url", "amp", "x.amp", "x.amp.html", "1BxiMVs0XRA5nFMd", "", " ", "x ", "é"]
@@ -255,16 +261,25 @@ def cases(rng, tier):
         yield {"k": "id", "s": s}
 
     # ---- youtube: every path over the route vocabulary
-    for p in _paths(YT_SEGS, 4 if thorough else 3):
+    for p in _paths(YT_SEGS, 4 if thorough else 2):
         yield _yt("youtube.com/" + p)
         yield _yt("youtube.com/" + p + "/")
     if thorough:
         for _ in range(150000):
             yield _yt("https://www.youtube.com/" + "/".join(rng.choice(YT_SEGS) for _ in range(5)) + rng.choice(["", "/"]))
-    for p in _paths(YT_SEGS, 2):
+    else:
+        for t in itertools.product(YT_CORE, repeat=3):
+            yield _yt("youtube.com/" + "/".join(t))
+            yield _yt("youtube.com/" + "/".join(t) + "/")
+    for p in _paths(YT_SEGS, 2 if thorough else 1):
         for h in YT_HOSTS:
             for s in SCHEMES:
                 yield _yt(s + h + "/" + p)
+    if not thorough:
+        for t in itertools.product(YT_CORE, repeat=2):
+            for h in YT_HOSTS:
+                for s in SCHEMES:
+                    yield _yt(s + h + "/" + "/".join(t))
     # ---- x query items
     for p in YT_ROUTE_PATHS:
         for h in YT_QHOSTS:
@@ -308,7 +323,7 @@ def cases(rng, tier):
 # --------------------------------------------------------------------------------------
 # model lines / implementation
 # --------------------------------------------------------------------------------------
-YT_RES = ["query_v", "query_list", "next_v", "nested_next_v", "fragment_v"]
+YT_RES = ["query_v", "query_list", "next_v", "nested_next_v", "fragment_v", "unsafe_url_chars"]
 G_RES = ["amp_query", "amp_suffixes", "url_extract"]
 
 
@@ -417,6 +432,7 @@ def impl(case):
             _group(y.NEXT_V_RE.search(u)),
             _group(y.NESTED_NEXT_V_RE.search(u)),
             _group(y.FRAGMENT_V_RE.match(u)),
+            y.UNSAFE_URL_CHARS_RE.sub("", u) if hasattr(y, "UNSAFE_URL_CHARS_RE") else {"missing": "UNSAFE_URL_CHARS_RE"},
         ]
     if k == "id":
         return [gd(y.is_youtube_video_id, case["s"]), gd(y.is_youtube_channel_id, case["s"])]
@@ -561,41 +577,6 @@ def oracle(case):
     if k == "g":
         return _oracle_g(case["url"])
     return None
-
-
-# --------------------------------------------------------------------------------------
-# known findings of this part (KNOWN_FINDINGS.json): each predicate recognises exactly one class
-# --------------------------------------------------------------------------------------
-def kf_yt_continuation_pattern_behind_tab(case, failure):
-    """'youtube.com/user/ne<TAB>xt=%2Fwatch%3Fv%3D<id>': NEXT_V_RE / NESTED_NEXT_V_RE are searched in the raw url, where the TAB
-    (CR, LF) hides the pattern; urlsplit removes the TAB, so the user / channel name holds the pattern, and so does the canonical
-    url, which then parses to a video (or None).  Exactly: a round-trip failure whose record is a user / channel with a field
-    in which one of the two continuation patterns matches."""
-    from ural import youtube as y
-
-    if case.get("k") != "yt" or not (failure.startswith("reparse:") or failure.startswith("idempotence:")):
-        return False
-    p = _safe(y.parse_youtube_url, case["url"])
-    if isinstance(p, y.YoutubeUser):
-        f = p.name
-    elif isinstance(p, y.YoutubeChannel):
-        f = p.id if p.id is not None else p.name
-    else:
-        return False
-    return bool(y.NEXT_V_RE.search(f) or y.NESTED_NEXT_V_RE.search(f))
-
-
-def kf_yt_continuation_pattern_in_playlist(case, failure):
-    """'youtube.com/next=%2Fwatch%3Fv%3D<A>?list=next=%2Fwatch%3Fv%3D<B>': the video id is taken from the LEFTMOST continuation
-    pattern (or from NEXT_V_RE before NESTED_NEXT_V_RE), the playlist id holds another one; in the canonical url
-    '…watch?v=<A>&list=next=%2Fwatch%3Fv%3D<B>' the only pattern left is the one inside the playlist id: it parses to the video <B>.
-    Exactly: a round-trip failure whose record is a video with a playlist id in which a continuation pattern matches."""
-    from ural import youtube as y
-
-    if case.get("k") != "yt" or not (failure.startswith("reparse:") or failure.startswith("idempotence:")):
-        return False
-    p = _safe(y.parse_youtube_url, case["url"])
-    return isinstance(p, y.YoutubeVideo) and bool(p.playlist) and bool(y.NEXT_V_RE.search(p.playlist) or y.NESTED_NEXT_V_RE.search(p.playlist))
 
 
 # --------------------------------------------------------------------------------------
